@@ -337,7 +337,7 @@ func runHistory(run *report.Run, w *world.World, rng *rand.Rand, scratch, backen
 	desc := fmt.Sprintf("history backend=%s events=%s", backend, strings.Join(h, ","))
 	run.Eval(1)
 	var inForce map[string]bool // nil => nothing in force
-	loaded := false              // entry loaded in the checker's view (model)
+	loaded := false             // entry loaded in the checker's view (model)
 	var current *doc
 	everPublished := map[string]*big.Int{}
 	rejectedSerials := map[string]bool{}
